@@ -439,19 +439,22 @@ func (fc *fileController) rejuvenate(fileKey uint16) error {
 }
 
 func (fc *fileController) atDescriptorLimit() bool {
+	// The two pools are counted one after the other rather than with both locks held:
+	// garbage collection holds the readers lock while it takes the writers lock, so
+	// nesting them here in the opposite order can deadlock (with a pending readers
+	// write-lock blocking new read-locks).
 	fc.writers.RLock()
+	writerCount := len(fc.writers.open)
+	fc.writers.RUnlock()
 	fc.readers.RLock()
-	defer func() {
-		fc.readers.RUnlock()
-		fc.writers.RUnlock()
-	}()
 	readerCount := 0
 	for _, f := range fc.readers.files {
 		f.RLock()
 		readerCount += len(f.open)
 		f.RUnlock()
 	}
-	return readerCount+len(fc.writers.open) >= fc.MaxDescriptors
+	fc.readers.RUnlock()
+	return readerCount+writerCount >= fc.MaxDescriptors
 }
 
 func (fc *fileController) close() error {
